@@ -145,7 +145,7 @@ PROPS = {
                                cfgs="CfgsB1", faults=("cancel",), maxfaults=1, must_cover=("Cancel", "ScriptStep")),
                             mc("Fail-own-2x3", maxops=3, ops=("send", "call", "await", "join", "stopped", "ping"), scripts="ScriptsFail", cfgs="CfgsFailOwn", kinds="InitKindsOwn", faults=("cancel",), maxfaults=1),
                             mc("Fail-3x2", clients=C3, ops=("send", "call", "await", "halt", "upgrade"), scripts="ScriptsFail", cfgs="CfgsFail", kinds="InitKindsAW", faults=("cancel",), maxfaults=2)]},
-        "families": [("fail", 300, 3000), ("tree", 80, 800), ("timers", 80, 800), ("registry", 80, 800), ("awaiters", 60, 600), ("mix", 120, 1200)],
+        "families": [("fail", 300, 3000), ("tree", 80, 800), ("timers", 80, 800), ("registry", 250, 2500), ("awaiters", 60, 600), ("mix", 120, 1200)],
         "relevant": r'"how":"panic"|"ev":"cancel"|"e":"err"|h_abandon', "relevant_min": 1,
     },
     "C07": {
